@@ -83,7 +83,13 @@ def run(ctx):
     for r in outs:
         ctx.case(key="lc:" + json.dumps(r["hist"]), nontrivial=len(r["hist"]) > 1 or r["hist"][0]["end"] not in ("wait", "ctx") or r["hist"][0]["load"] != "small")
         if "error" in r:
-            # a lifecycle that hangs or raises is a harness/other-property matter, reported as machinery failure here
+            if r.get("rc") in (-14, -9, None) and "Traceback" not in r["error"]:
+                # killed by its 400 s alarm / the driver's time-out: the history (seconds of work) never completes -- whatever the
+                # executor owns is never released
+                ctx.violation("C20 history %s does not complete within 400 s: an executor that cannot finish its shutdown / release never "
+                              "gives its resources back" % (r["hist"],), dict(engine="E-REAL", hist=r["hist"], rc=r.get("rc"),
+                              how="python -m engine.real.lifecycle_real --one '<hist json>' out.json 3"), signature=dict(kind="lifecycle_hang"))
+                continue
             raise runner.Machinery("lifecycle history %s did not complete: rc=%s %s" % (r["hist"], r.get("rc"), r["error"][-600:]))
         once, many = r["once"], r["many"]
 
